@@ -53,7 +53,8 @@ def _rename_view(c, new, how):
 
 def _public_attribute_names():
     import serif
-    from serif.table import Row
+    from values import row_class
+    Row = row_class()
     names = set()
     for cls in (serif.Vector, serif.Table, Row):
         names |= {n for n in dir(cls) if not n.startswith("_")}
